@@ -108,6 +108,21 @@ pub fn run(tier: Tier) -> i32 {
         tail_only.push(0);
         images.push(("minimal(DEFAULT-only)".to_string(), b));
     }
+    // hundreds of homographs and of unknown entries (counts beyond 256)
+    {
+        let us = crate::universe::u_big(tier);
+        for nm in ["big/homographs-257", "big/unk-entries-257"] {
+            if let Some(u) = us.iter().find(|u| u.name == nm) {
+                let d = u.dict.build_real().unwrap_or_else(|e| {
+                    println!("MACHINERY: {nm} does not build: {e}");
+                    std::process::exit(2)
+                });
+                let (b, _) = write_bytes(&d).unwrap();
+                tail_only.push(b.len().saturating_sub(40_000));
+                images.push((format!("{nm} (last 40000 prefixes)"), b));
+            }
+        }
+    }
     // sanity: the full images are accepted
     for (name, img) in &images {
         if read_class(img, 0) != "Ok" {
